@@ -18,9 +18,9 @@ def lemmas(rep):
     L = z3.Function('L', z3.IntSort(), z3.IntSort()); j, j2, SER = z3.Ints('j j2 SER'); cl = z3.Function('CL', z3.IntSort(), z3.IntSort()); has = z3.Function('has_data', z3.IntSort(), z3.BoolSort())
     pad = serialize.pad16; step = lambda k: L(k + 1) == z3.If(has(k), pad(L(k) + cl(k)), L(k)); room = lambda k: z3.If(has(k), cl(k), 0)
     goals = [('L-aligned.base', [L(0) == pad(SER), SER > 0], z3.And(L(0) % 16 == 0, L(0) >= SER)),
-             ('L-aligned.step', [step(j), cl(j) > 0, L(j) % 16 == 0, L(j) >= SER], z3.And(L(j + 1) % 16 == 0, L(j + 1) >= SER)),
-             ('L-monotone.base', [step(j), cl(j) > 0], L(j) + room(j) <= L(j + 1)),
-             ('L-monotone.step', [j < j2, L(j) + room(j) <= L(j2), step(j2), cl(j2) > 0], L(j) + room(j) <= L(j2 + 1))]
+             ('L-aligned.step', [step(j), z3.Implies(has(j), cl(j) > 0), L(j) % 16 == 0, L(j) >= SER], z3.And(L(j + 1) % 16 == 0, L(j + 1) >= SER)),
+             ('L-monotone.base', [step(j), z3.Implies(has(j), cl(j) > 0)], L(j) + room(j) <= L(j + 1)),
+             ('L-monotone.step', [j < j2, L(j) + room(j) <= L(j2), step(j2), z3.Implies(has(j2), cl(j2) > 0)], L(j) + room(j) <= L(j2 + 1))]
     for name, hyps, goal in goals:
         s = z3.Solver(); s.set('timeout', 20000); s.add(*hyps); s.add(z3.Not(goal)); r = s.check()
         rep.add(core.Ob(f'C16/spec-lemma/{name}', None, 'z3-lia(induction step)', core.PROVED if r == z3.unsat else (core.REFUTED if r == z3.sat else core.UNKNOWN), 0.0, clause=str(goal)))
@@ -122,6 +122,11 @@ def generated_model(name):
             prev_n = sg.tensors[cur].shape[1]; nxt = tensor(f't{k}', [1, n])
             fc(cur, tensor(f'w{k}', [n, prev_n], (np.arange(n * prev_n, dtype=np.float32).reshape(n, prev_n) - k) / 7.0), tensor(f'b{k}', [n], np.arange(n, dtype=np.float32) / 3.0), nxt); cur = nxt
         y = cur
+    elif name.startswith('gen:empty'):
+        # a zero-length constant (present, empty data vector) in front of the other constants; '+k' lengthens a tensor name to move the flatbuffer's length mod 16
+        W = (np.arange(16, dtype=np.float32).reshape(4, 4) - 7.5) / 9.0; k = int(name.split('+')[1]) if '+' in name else 0
+        x = tensor('x' + '_' * k, [1, 4]); e = tensor('empty_const', [0], np.zeros(0)); h = tensor('h', [1, 4]); y = tensor('y', [1, 4])
+        fc(x, tensor('w0', [4, 4], W), tensor('b0', [4], np.ones(4)), h); fc(h, tensor('w1', [4, 4], W + 1), tensor('b1', [4], np.zeros(4)), y)
     else: raise ValueError(name)
     sg.inputs = [x]; sg.outputs = [y]
     sd = S.SignatureDefT(); sd.signatureKey = b'serving_default'; sd.subgraphIndex = 0; sd.inputs = []; sd.outputs = []
@@ -130,7 +135,7 @@ def generated_model(name):
     m.signatureDefs = [sd]
     return bytes(fu.convert_object_to_bytearray(m))
 
-CASES = [('gen:dup', 'default_af32w8float_recipe.json'), ('gen:odd', 'default_a8w8_recipe.json'), ('single_fc_bias.tflite', 'default_af32w8float_recipe.json'), ('conv_fc_mnist.tflite', 'default_a8w8_recipe.json'), ('conv_fc_mnist.tflite', 'default_af32w4float_recipe.json'),
+CASES = [('gen:dup', 'default_af32w8float_recipe.json'), ('gen:odd', 'default_a8w8_recipe.json'), ('gen:empty+4', 'default_af32w8float_recipe.json'), ('single_fc_bias.tflite', 'default_af32w8float_recipe.json'), ('conv_fc_mnist.tflite', 'default_a8w8_recipe.json'), ('conv_fc_mnist.tflite', 'default_af32w4float_recipe.json'),
          ('single_fc_bias.tflite', 'dynamic_wi8_afp32_recipe.json'), ('embedding_lookup.tflite', 'default_af32w8float_recipe.json'), ('two_signatures.tflite', 'default_af32w8float_recipe.json')]
 def search(label=None):
     for m, r in CASES:
@@ -142,7 +147,8 @@ def search(label=None):
 CANARIES = [('_serialize_large_model: pass 2 pads to 8 instead of 16', "      model_bytearray += buffer_data\n      while len(model_bytearray) % 16:", "      model_bytearray += buffer_data\n      while len(model_bytearray) % 8:"),
             ('_serialize_large_model: size includes a padding byte', "      buffer.size = len(buffer_data)", "      buffer.size = len(buffer_data) + 1"),
             ('_serialize_large_model: offset taken after appending the data', "      buffer.offset = len(dummy_bytearray)\n      buffer.size = len(buffer_data)\n      dummy_bytearray += buffer_data", "      buffer.size = len(buffer_data)\n      dummy_bytearray += buffer_data\n      buffer.offset = len(dummy_bytearray)"),
-            ('_serialize_large_model: placeholder size 0 (field dropped by the serializer)', "        buffer.size = 1", "        buffer.size = 0")]
+            ('_serialize_large_model: placeholder size 0 (field dropped by the serializer)', "        buffer.size = 1", "        buffer.size = 0"),
+            ('_serialize_large_model: zero-length constants externalised again (the repaired defect)', "      if buffer.data is not None and len(buffer.data) > 0:", "      if buffer.data is not None:")]
 
 def run(rep):
     pyvc.verify(rep, 'C16', core.Fn(MM, 'ModelModifier._serialize_large_model'), serialize.SerializeLarge(), fallback=search)
@@ -150,7 +156,7 @@ def run(rep):
     lemmas(rep); rep.extend(path_obligations(rep))
     # bounded stand-in through the public API with the threshold hook
     cases = fails = 0; first = None
-    for m, r in (CASES if rep.tier == 'thorough' else CASES[:5]):
+    for m, r in (CASES + [(f'gen:empty+{k}', 'default_af32w8float_recipe.json') for k in (0, 8, 12)] if rep.tier == 'thorough' else CASES[:6]):
         try: rp = native_compare(m, r); cases += 1
         except Exception as e: rep.notes.append(f'stand-in case {m}/{r} could not run: {type(e).__name__}: {str(e)[:100]}'); continue
         if rp['confirmed']: fails += 1; first = first or rp
@@ -166,7 +172,7 @@ def run(rep):
         except pyvc.Unsupported as e: rep.canary(name, True, str(e))
     rep.assume('ASSUMED CONTRACT of the dependency: len(flatbuffer_utils.convert_object_to_bytearray(m)) is independent of the values of non-zero buffer offset/size fields, and parsing ignores bytes after the flatbuffer root; '
                'its applicability (fields non-zero at both calls) is a discharged call-site obligation')
-    rep.assume('precondition: every data-bearing buffer holds at least one byte (a zero-length constant would make size 0 and drop the field); the serialized model is non-empty')
+    rep.assume('the constant map is the one _process_constant_map built for this model (entry None iff no data; len(buffer.data) > 0 iff the entry is non-empty: data vectors are 1-D byte arrays); the serialized model is non-empty')
     rep.assume('termination of the padding loops is not verified (partial correctness); interpreter load / identical outputs only through the bounded stand-in')
     rep.trust('bytes / bytearray / numpy byte arrays modelled as int lists with in-place extension; ndarray.tobytes() returns the bytes of the array')
 
